@@ -10,6 +10,8 @@
 import EasyMl.Lemmas.Gaussian
 import EasyMl.Props.C08
 import EasyMl.Lemmas.Stats
+import EasyMl.Lemmas.DecompArith
+import EasyMl.Model.ApiSurface
 import Mathlib.Analysis.SpecialFunctions.Exp
 import Mathlib.Tactic.NormNum
 
@@ -437,5 +439,69 @@ theorem mvNewTensor_ok_iff (ml cr cc : ℕ) :
     (mvNewTensor ml cr cc = .error .meanVectorWrongLength ↔ (cr = cc ∧ ml ≠ cr)) := by
   unfold mvNewTensor
   by_cases h2 : cr = cc <;> by_cases h3 : ml = cr <;> subst_vars <;> simp_all
+
+/-! ### constructor-discharged statements, composition with C03, API surface -/
+
+section constructed
+set_option linter.unusedSectionVars false
+variable {K : Type} [Field K] [RealFns K] [NumOrd K]
+
+/-- **For every distribution a constructor accepts** the multivariate draw is the specification:
+    the equal-length hypothesis of `mv_draw_eq` is what `MultivariateGaussianTensor::new` /
+    `MultivariateGaussian::new` (a one-column mean) check, so it is discharged by acceptance. -/
+theorem mv_draw_eq_constructed (mean : List K) (covariance : Matrix K) (source : List K) (samples : ℕ)
+    (sameNames : Bool)
+    (hnew : mvNewTensor mean.length covariance.rows covariance.columns = .ok () ∨
+      mvNewMatrix mean.length 1 covariance.rows covariance.columns = .ok ()) :
+    drawTensorSamples mean covariance source samples sameNames =
+      (if sameNames = false ∧ (cholesky covariance).isSome ∧ samples = 0 then .panic .explicit
+        else .ok (mvSpec mean covariance source samples sameNames),
+       source.drop (mvConsumed mean covariance source.length samples sameNames)) := by
+  have hm : mean.length = covariance.rows := by
+    rcases hnew with h | h
+    · exact ((mvNewTensor_ok_iff _ _ _).1.mp h).2
+    · exact ((mvNewMatrix_ok_iff _ _ _ _).mp h).2.2
+  exact mv_draw_eq mean covariance source samples sameNames hm
+
+/-- … and it is absent exactly for equal names, no Cholesky factor or a short source. -/
+theorem mv_none_iff_constructed (mean : List K) (covariance : Matrix K) (source : List K) (samples : ℕ)
+    (sameNames : Bool)
+    (hnew : mvNewTensor mean.length covariance.rows covariance.columns = .ok () ∨
+      mvNewMatrix mean.length 1 covariance.rows covariance.columns = .ok ()) (hk : 0 < samples) :
+    (drawTensorSamples mean covariance source samples sameNames).1 = .ok none ↔
+      (sameNames = true ∨ cholesky covariance = none ∨
+        source.length < samples * (2 * ((mean.length + 1) / 2))) := by
+  have hm : mean.length = covariance.rows := by
+    rcases hnew with h | h
+    · exact ((mvNewTensor_ok_iff _ _ _).1.mp h).2
+    · exact ((mvNewMatrix_ok_iff _ _ _ _).mp h).2.2
+  exact mv_none_iff mean covariance source samples sameNames hm hk
+
+example : mvNewTensor ([1, 2] : List ℚ).length 2 2 = .ok () := by decide
+
+/-- **Composition C17 ∘ C08 ∘ C03**: one sample row is the mean plus the first column of C03's
+    matrix product (`Arith.mMatMul`, the model of `Tensor/Matrix * …`) of the Cholesky factor (C08's
+    model) with the column of standard normals. -/
+theorem mv_row_via_C03 {n : ℕ} (mean : List K) (L : Matrix K) (z : List K)
+    (hL : Shaped (n + 1) (n + 1) L) (hz : z.length = n + 1) :
+    ∃ P, Arith.mMatMul (Arith.MView.ofMatrix L) (Arith.MView.ofMatrix ⟨z, z.length, 1⟩) = .ok P ∧
+      randomVector mean L z = (List.range mean.length).map fun i => mean.getD i 0 + get P i 0 := by
+  have hzs : Shaped (n + 1) 1 (⟨z, z.length, 1⟩ : Matrix K) := ⟨hz, rfl, by simp [hz]⟩
+  exact ⟨matMul L ⟨z, z.length, 1⟩, matMul_eq_C03 hL hzs (by omega) (le_refl 1), rfl⟩
+
+example : Shaped 2 2 (⟨[2, 0, 1, 2], 2, 2⟩ : Matrix ℚ) ∧ ([1, 3] : List ℚ).length = 1 + 1 := ⟨⟨rfl, rfl, rfl⟩, rfl⟩
+
+end constructed
+
+/-! ### API surface of `Gaussian` (`Model/ApiSurface.lean`) -/
+
+/-- `Gaussian::new(mean, variance)` stores its arguments in field order and `clone_from` leaves a
+    clone of the source whatever the target held (so `N(9,9).clone_from(&N(3,4))` is `N(3,4)`). -/
+theorem gaussian_struct_surface {F : Type} (mean variance m2 v2 : F) :
+    (Api.fromUnchecked mean variance).first = mean ∧ (Api.fromUnchecked mean variance).second = variance ∧
+    Api.cloneFrom (Api.fromUnchecked m2 v2) (Api.fromUnchecked mean variance)
+      = Api.fromUnchecked mean variance :=
+  ⟨rfl, rfl, rfl⟩
+
 
 end EasyMl.C17
